@@ -156,7 +156,7 @@ _REND = {}
 
 
 def renderings(fmt, t):
-    key = (fmt, json.dumps(t, sort_keys=True))
+    key = (fmt, repr(t))
     if key not in _REND:
         _REND[key] = _renderings(fmt, t)
     return _REND[key]
@@ -222,12 +222,21 @@ TARGETS = {
     's1': "just a string",
     'i1': 42,
     'f1': 2.5,
+    # not JSON / TOML round-trippable: integer keys whose numeric and string orders differ, dicts
+    # nested inside tuples (python-literal format; the int-keyed part also as YAML)
+    'p1': {"k": {10: "ten", 9: "nine", 2: "two", 33: "tt"}, "t": ({"z": 1, "b": 2, "a": 3}, [{"y": 1, "x": 2}], 7),
+           "a": {"b": "pea", "n": 11, "l": ({"y": "p", "x": 1}, {"y": "q", "x": 2})}, "c": "sea", "d": (3, 1, 2)},
+    'p2': {100: {"q": 1, "p": 2}, 20: [3, 4], 3: "three"},
 }
 SPEC_VALUES = [
     'a', 'a.b', 'a.n', 'c', 'd', 'a.l', 'e', 'a.q', 'zz', 'd.0', 'a.l.0.y', 'a.b.c', 'm.x', 'f', 'a.l.0',
     'm.x.2', 'd.9', 'm.x.0', 'e.k1', 'b',
     # '*' / '**' wildcard segments (Path.from_text): select several values
     'a.l.*.y', 'a.l.*.x', 'd.*', 'e.*', '**.n', 'a.**.y', '*.b', 'a.l.*', '**.zz', 'a.l.*.zz', '*.a',
+    'k', 't', 't.0', ('t',), {'kk': 'k', 'tt': 't'},
+    # dict specs with integer keys (numeric order differs from string order), unsorted insertion order
+    {10: 'a.b', 9: 'c', 2: 'a.n'}, {'o': {100: 'c', 20: 'c', 3: 'd'}}, ('a', {10: 'b', 9: 'n'}), {10: 'zz', 9: 'c'},
+    {33: 'a.l', 4: ('a', 'n')},
     {'x': 'a.b', 'w': 'c'}, {'k': {'inner': 'a.n'}, 'j': 'd'}, {'x': 'zz'}, {}, {'only': 'a.l'},
     ('a.l', ['y']), ('a.l', [{'p': 'x'}]), ['a'], ['b'], ('a', 'b'), ('a', 'n'), ('a', 'l', [('x',)]),
     {'r': ('a.l', [{'xx': 'x', 'yy': ('y',)}])}, ('d', ['zz']), [{'q': 'a'}], ('a', 'q'), ('f',), (),
@@ -846,12 +855,19 @@ KEYS = ['a', 'b', 'c', 'd', 'e', 'k1', 'x', 'y', 'n']
 WORDS = ['', 'sea', 'bee', 'x y', 'café', 'q"uote', "it's", '0', 'nine', 'two\nlines']
 
 
-def rand_value(rng, depth, toml=False):
+INT_KEYS = [2, 9, 10, 33, 100, 4, 20]
+
+
+def rand_value(rng, depth, toml=False, py=False):
+    """py: python-literal format only - integer-keyed dicts (never mixed with string keys) and tuples"""
     r = rng.random()
     if depth > 0 and r < 0.45:
-        return {k: rand_value(rng, depth - 1, toml) for k in rng.sample(KEYS, rng.randint(1, 4))}
+        if py and rng.random() < 0.25:
+            return {k: rand_value(rng, depth - 1, toml, py) for k in rng.sample(INT_KEYS, rng.randint(2, 4))}
+        return {k: rand_value(rng, depth - 1, toml, py) for k in rng.sample(KEYS, rng.randint(1, 4))}
     if depth > 0 and r < 0.65:
-        return [rand_value(rng, depth - 1, toml) for _ in range(rng.randint(0, 3))]
+        items = [rand_value(rng, depth - 1, toml, py) for _ in range(rng.randint(0, 3))]
+        return tuple(items) if py and rng.random() < 0.4 else items
     r = rng.random()
     if r < 0.4:
         return rng.choice(WORDS)
@@ -868,10 +884,12 @@ def rand_path(rng, val, maxlen=4):
     segs, cur = [], val
     for _ in range(rng.randint(1, maxlen)):
         if isinstance(cur, dict) and cur:
+            if not all(isinstance(k, str) for k in cur):
+                break                       # integer keys are not addressable by a dotted path
             k = rng.choice(list(cur))
             segs.append(k)
             cur = cur[k]
-        elif isinstance(cur, list) and cur:
+        elif isinstance(cur, (list, tuple)) and cur:
             i = rng.randrange(len(cur))
             segs.append(str(i))
             cur = cur[i]
@@ -903,17 +921,19 @@ def rand_spec(rng, val, depth):
         segs, _ = rand_path(rng, val)
         return '.'.join(with_wildcards(rng, segs))
     if r < 0.65:
+        if rng.random() < 0.2:              # integer keys (never mixed with string keys)
+            return {k: rand_spec(rng, val, depth - 1) for k in rng.sample(INT_KEYS, rng.randint(2, 3))}
         return {rng.choice(['p', 'q', 'r', 'zeta', 'alpha']) + str(i): rand_spec(rng, val, depth - 1)
                 for i in range(rng.randint(1, 3))}
     if r < 0.9:
         segs, sub = rand_path(rng, val, 2)
         head = '.'.join(segs)
-        if isinstance(sub, list) and sub and rng.random() < 0.7:
+        if isinstance(sub, (list, tuple)) and sub and rng.random() < 0.7:
             return (head, [rand_spec(rng, sub[0], depth - 1)])
         if sub is None:
             return (head, 'zz')
         return (head, rand_spec(rng, sub, depth - 1))
-    if isinstance(val, list) and val:
+    if isinstance(val, (list, tuple)) and val:
         return [rand_spec(rng, val[0], depth - 1)]
     return (rand_spec(rng, val, depth - 1),)
 
@@ -954,9 +974,10 @@ def rand_case(rng):
     def fresh_target():
         for _ in range(50):
             if cf == 'toml' or top < 0.8:
-                v = {k: rand_value(rng, rng.randint(0, 3), cf == 'toml') for k in rng.sample(KEYS, rng.randint(1, 5))}
+                v = {k: rand_value(rng, rng.randint(0, 3), cf == 'toml', cf == 'python')
+                     for k in rng.sample(KEYS, rng.randint(1, 5))}
             elif top < 0.9:
-                v = [rand_value(rng, 2) for _ in range(rng.randint(1, 3))]
+                v = [rand_value(rng, 2, False, cf == 'python') for _ in range(rng.randint(1, 3))]
             else:
                 v = rand_value(rng, 0)
                 if v is None or isinstance(v, (bool, float)) or v == '' or (isinstance(v, int) and v < 0):
